@@ -159,7 +159,7 @@ pub fn gen(ctx: &Ctx) {
     let mut out = Out::new(&ctx.dir, "body");
     out.rule = "payloads (0..300 bytes mostly, some to 10000; thorough: 131073) in valid fixed-length and chunked encodings (chunk sizes 1 / whole / small / random, upper/lower-case \
                 hex with leading zeros, extensions, trailers); every leftover|stream split style and stream segmentation (whole, 1-byte, small, random); read sizes from \
-                {1,2,3,7,64,1000,4095,4096,4097,8192,70000} through Read and through BufRead and through both in turn on one reader, with zero-sized requests in between; every truncation point and every single-byte corruption of small encodings; EOF-delimited bodies. \
+                {1,2,3,7,64,1000,4095,4096,4097,8192,70000} through Read and through BufRead and through both in turn on one reader, with zero-sized requests in between; every truncation point and every single-byte corruption of small encodings; chunk sizes above 2^64 that agree with the data modulo 2^64; EOF-delimited bodies. \
                 non-trivial = a non-empty payload was delivered".into();
     let mut emit = |out: &mut Out, kind: &str, data: &[u8], rng: &mut Rng, need: usize, class: &str| {
         let (lo, segs) = split_segs(rng, data);
@@ -210,6 +210,23 @@ pub fn gen(ctx: &Ctx) {
         }
         for cut in 0..p.len() {
             emit(&mut out, &format!("F{}", p.len()), &p[..cut], &mut rng, p.len(), "fixed-truncated");
+        }
+    }
+    // chunk sizes that do not fit in 64 bits but agree with the data modulo 2^64 (seeds C06-i / C07-i folded the digits with a
+    // shift and lost the high bits): 1<16 hex digits of n>, ff<16 digits>, and 2^64 itself in place of the last-chunk size
+    for _ in 0..(if ctx.thorough { 200 } else { 40 }) {
+        let pl = rng.range(1, 40) as usize;
+        let p = payload(&mut rng, pl);
+        let big = |pre: &str, n: usize| format!("{pre}{:016x}", n).into_bytes();
+        let mut variants: Vec<Vec<u8>> = Vec::new();
+        for pre in ["1", "ff", "100", "00001"] {
+            let mut e = big(pre, p.len()); e.extend(b"\r\n"); e.extend(&p); e.extend(b"\r\n0\r\n\r\n"); variants.push(e);
+        }
+        { let mut e = format!("{:x}\r\n", p.len()).into_bytes(); e.extend(&p); e.extend(b"\r\n10000000000000000\r\n\r\n"); variants.push(e); }
+        { let mut e = format!("{:x}\r\n", p.len()).into_bytes(); e.extend(&p); e.extend(b"\r\n"); e.extend(big("3", 0)); e.extend(b"\r\n\r\n"); variants.push(e); }
+        for mut e in variants {
+            if rng.chance(1, 2) { e.extend(b"GET / HTTP/1.1\r\n\r\n"); }
+            emit(&mut out, "C", &e, &mut rng, p.len() + 8, "chunk-size-overflow");
         }
     }
     out.finish();
